@@ -14,7 +14,8 @@ use super::{DiagnosticLocation, DiagnosticMessage, SeverityLevel};
 /// and to use `LintErrors`, as those are recoverable.
 pub enum CfgError {
     /// This error occurs when a label is used but not defined.
-    LabelsNotDefined(HashSet<LabelStringToken>),
+    /// The undefined labels, in the order in which the program first uses them
+    LabelsNotDefined(Vec<LabelStringToken>),
     /// This error occurs when a label is defined more than once.
     DuplicateLabel(LabelStringToken),
     /// This error occurs when a return statement is used but can be reached by
@@ -35,11 +36,11 @@ pub enum CfgError {
     AssertionError,
 }
 
-/// The label an error about a set of labels is attached to: the smallest one,
-/// so that the location does not depend on the iteration order of the set.
+/// The place of an error about undefined labels: the first use in the program
+/// (not the smallest name - renaming a label must not move the error).
 #[allow(clippy::unwrap_used)]
-fn first_label(labels: &HashSet<LabelStringToken>) -> &LabelStringToken {
-    labels.iter().min().unwrap()
+fn first_use(labels: &[LabelStringToken]) -> &LabelStringToken {
+    labels.first().unwrap()
 }
 
 trait SetListString {
@@ -47,6 +48,20 @@ trait SetListString {
 }
 
 impl<T> SetListString for HashSet<T>
+where
+    T: Display + Ord,
+{
+    fn as_str_list(&self) -> String {
+        let mut vec = self.iter().collect::<Vec<_>>();
+        vec.sort();
+        vec.iter()
+            .map(std::string::ToString::to_string)
+            .collect::<Vec<_>>()
+            .join(", ")
+    }
+}
+
+impl<T> SetListString for Vec<T>
 where
     T: Display + Ord,
 {
@@ -108,7 +123,7 @@ impl DiagnosticLocation for CfgError {
             CfgError::MultipleLabelsForReturn(node, _)
             | CfgError::NoLabelForReturn(node)
             | CfgError::FunctionWithoutReturn(node) => node.file(),
-            CfgError::LabelsNotDefined(labels) => first_label(labels).file(),
+            CfgError::LabelsNotDefined(labels) => first_use(labels).file(),
             CfgError::DuplicateLabel(label) | CfgError::LabelWithoutInstruction(label) => {
                 label.file()
             }
@@ -121,7 +136,7 @@ impl DiagnosticLocation for CfgError {
             CfgError::MultipleLabelsForReturn(node, _)
             | CfgError::NoLabelForReturn(node)
             | CfgError::FunctionWithoutReturn(node) => node.range(),
-            CfgError::LabelsNotDefined(labels) => first_label(labels).range(),
+            CfgError::LabelsNotDefined(labels) => first_use(labels).range(),
             CfgError::DuplicateLabel(label) | CfgError::LabelWithoutInstruction(label) => {
                 label.range()
             }
@@ -134,7 +149,7 @@ impl DiagnosticLocation for CfgError {
             CfgError::MultipleLabelsForReturn(node, _)
             | CfgError::NoLabelForReturn(node)
             | CfgError::FunctionWithoutReturn(node) => node.raw_text(),
-            CfgError::LabelsNotDefined(labels) => first_label(labels).raw_text(),
+            CfgError::LabelsNotDefined(labels) => first_use(labels).raw_text(),
             CfgError::DuplicateLabel(label) | CfgError::LabelWithoutInstruction(label) => {
                 label.raw_text()
             }
